@@ -23,6 +23,7 @@ func init() {
 		Run: runC04,
 		Controls: []Control{
 			{Name: "initial-dump-from-a-snapshot-after-unlock", File: "routingtable/locRIB/loc_rib.go", Old: "func (a *LocRIB) UpdateNewClient(client routingtable.RouteTableClient) error {\n\ta.mu.RLock()\n\tdefer a.mu.RUnlock()\n", New: "func (a *LocRIB) UpdateNewClient(client routingtable.RouteTableClient) error {\n\ta.mu.RLock()\n\ta.mu.RUnlock()\n", Expect: "client-notified-under-table-lock"},
+			{Name: "route-copy-on-the-receivers-array", File: "route/route.go", Old: "\tn.paths = make([]*Path, len(r.paths))\n\tcopy(n.paths, r.paths)\n", New: "\tn.paths = append(r.paths[:0], r.paths...)\n", Expect: "route-copy-owns-its-path-list"},
 			{Name: "propagation-skipped-when-selection-unchanged", File: "routingtable/locRIB/loc_rib.go", Old: "func (a *LocRIB) propagateChanges(oldRoute *route.Route, newRoute *route.Route) {\n", New: "func (a *LocRIB) propagateChanges(oldRoute *route.Route, newRoute *route.Route) {\n\tif oldRoute.ECMPPathCount() == newRoute.ECMPPathCount() && oldRoute.BestPath() == newRoute.BestPath() {\n\t\treturn\n\t}\n", Expect: "withdraw-before-announce"},
 			{Name: "diff-by-selection-equality", File: "route/path.go", Old: "\t\tif p == needle {\n", New: "\t\tif p == needle || p.Equal(needle) {\n", Expect: "diff-membership-is-identity"},
 			{Name: "refactor-diff-operands-swapped", Silent: true, File: "route/path.go", Old: "\t\tif p == needle {\n", New: "\t\tif needle == p {\n"},
@@ -39,6 +40,7 @@ func init() {
 const locPkg = "routingtable/locRIB"
 
 func runC04(c *core.Ctx) {
+	routeCopyOwnsItsPathList(c, "route-copy-owns-its-path-list")
 	clientNotifiedUnderTableLock(c, "client-notified-under-table-lock", "routingtable/locRIB", "LocRIB", 4)
 	p := c.P
 	diffMembership(c)
